@@ -32,7 +32,10 @@ def build(sanitize=False):
     """Returns the path of the built .so (builds it if the cache has no entry for these sources)."""
     import numpy as np
     cc = "clang" if sanitize else "gcc"
-    flags = [cc, "-shared", "-fPIC", "-O1" if sanitize else "-O2", "-g", "-DNPY_NO_DEPRECATED_API=NPY_1_9_API_VERSION",
+    # the plain build uses the flags setup.py's build_ext inherits from the interpreter (-DNDEBUG -O3: asserts are
+    # compiled out in the shipped extension); the sanitizer build keeps the asserts
+    flags = [cc, "-shared", "-fPIC"] + (["-O1"] if sanitize else ["-O3", "-DNDEBUG", "-fno-strict-overflow"]) + [
+        "-g", "-DNPY_NO_DEPRECATED_API=NPY_1_9_API_VERSION",
              "-I" + sysconfig.get_paths()["include"], "-I" + np.get_include()]
     if sanitize:
         flags += ["-fsanitize=address,undefined", "-fno-sanitize-recover=all", "-fno-omit-frame-pointer",
